@@ -328,28 +328,29 @@ def g5_location_slices(ast, source, M=None):
             out.append(("G5", {"what": "location outside the document", "kind": kind, "location": loc}))
             continue
         line = lines[l - 1]
-        rest = line[c - 1:]
+        at = c - 1                     # (no slicing: documents may have very long lines)
         ok = True
         if kind in ("feature", "rule", "background", "scenario", "examples"):
-            ok = rest.startswith(node["keyword"] + ":")
+            ok = line.startswith(node["keyword"] + ":", at)
         elif kind == "step":
-            ok = rest.startswith(node["keyword"])
+            ok = line.startswith(node["keyword"], at)
         elif kind == "tag":
-            ok = rest.startswith(node["name"])
+            ok = line.startswith(node["name"], at)
         elif kind in ("row", "dataTable"):
-            ok = rest.startswith("|")
+            ok = line.startswith("|", at)
         elif kind == "cell":
             if node["value"] == "":
-                ok = rest.startswith("|")
+                ok = line.startswith("|", at)
             else:
-                ok = refcells.raw_cell_at(line, c) == node["value"] and not refcells.is_blank(rest[:1] or " ")
+                ok = at < len(line) and not refcells.is_blank(line[at]) and refcells.raw_cell_at(line, c) == node["value"]
         elif kind == "docString":
-            ok = rest.startswith(node["delimiter"])
+            ok = line.startswith(node["delimiter"], at)
         elif kind == "comment":
             ok = c == 1 and node["text"] == line.rstrip("\r")
-        if ok and kind != "comment" and kind != "cell" and line[:c - 1].strip() != "" and kind not in ("tag",):
+        if ok and kind in ("feature", "rule", "background", "scenario", "examples", "step", "row", "dataTable", "docString"):
             # keyword / row / delimiter elements start at the first non-blank character of their line
-            ok = False
+            if at > len(line) - len(line.lstrip()):
+                ok = False
         if not ok:
             out.append(("G5", {"what": "source at the reported location does not give back the element",
                                "kind": kind, "location": loc, "line_text": line[:120],
